@@ -70,6 +70,9 @@ def make_param(x, st: St, name: str, spec):
     if spec == "kindset":
         # a NodeKind flag value (one member or an |-combination): the string of its members' characters
         return V("kindset_s", z3.String(name))
+    if spec == "match":
+        # a match object of some pattern: group(0) is an arbitrary string (facts about it go into `requires`)
+        return V("match", {"pattern": None, "optional": set(), "unknown_groups": True, "groups": [V("str", z3.String(name + "!g0"))]})
     if spec == "intset":
         return V("iset", name)
     if spec == "strset":
